@@ -42,3 +42,48 @@ Proof.
   assert (E: snd xv * (1 / snd xv) == 1) by (field; lra).
   nra.
 Qed.
+
+(* the arithmetic mean (avg1 / avgx1) lies in the hull of the averaged values *)
+Definition nQ {A} (l : list A) : Q := sumQ (fun _ => 1) l.
+Lemma amean_in_hull (l : list (Q * Q)) lo hi : (forall xv, In xv l -> lo <= fst xv <= hi) ->
+  lo * nQ l <= sumQ fst l <= hi * nQ l.
+Proof.
+  unfold nQ. intros H. induction l as [|a l IH]; simpl; [lra|].
+  destruct (H a (or_introl eq_refl)) as [H1 H2].
+  destruct IH as [I1 I2]; [intros xv Hin; apply H; right; exact Hin|]. split; lra.
+Qed.
+(* with equal variances the weighted mean is the arithmetic mean: wsum/isum = sum x / n, stated without division *)
+Lemma wsum_equal_var (l : list (Q * Q)) v : 0 < v -> (forall xv, In xv l -> snd xv == v) -> wsum l == sumQ fst l * (1 / v).
+Proof.
+  intros Hv H. unfold wsum. induction l as [|a l IH]; simpl; [ring|]. rewrite IH by (intros; apply H; right; assumption).
+  rewrite (H a (or_introl eq_refl)). field. lra.
+Qed.
+Lemma isum_equal_var (l : list (Q * Q)) v : 0 < v -> (forall xv, In xv l -> snd xv == v) -> isum l == nQ l * (1 / v).
+Proof.
+  intros Hv H. unfold isum, nQ. induction l as [|a l IH]; simpl; [ring|]. rewrite IH by (intros; apply H; right; assumption).
+  rewrite (H a (or_introl eq_refl)). field. lra.
+Qed.
+Lemma wmean_equal_var (l : list (Q * Q)) v : 0 < v -> (forall xv, In xv l -> snd xv == v) ->
+  wsum l * nQ l == sumQ fst l * isum l.
+Proof. intros Hv H. rewrite (wsum_equal_var l v Hv H), (isum_equal_var l v Hv H). ring. Qed.
+(* the inverse-variance weighted mean minimises the weighted sum of squared deviations: for m* = wsum/isum and every m,
+   sum (x_i - m)^2 / v_i  -  sum (x_i - m* )^2 / v_i  =  isum * (m - m* )^2  >= 0 *)
+Definition wss (l : list (Q * Q)) (m : Q) : Q := sumQ (fun xv => (fst xv - m) * (fst xv - m) / snd xv) l.
+Lemma wss_expand l m : (forall xv, In xv l -> 0 < snd xv) ->
+  wss l m == wss l 0 - 2 * m * wsum l + m * m * isum l.
+Proof.
+  unfold wss, wsum, isum. intros H. induction l as [|a l IH]; simpl; [ring|].
+  rewrite IH by (intros; apply H; right; assumption).
+  assert (Ha: 0 < snd a) by (apply H; left; reflexivity). field. intros E0. rewrite E0 in Ha. apply (Qlt_irrefl 0), Ha.
+Qed.
+Lemma wmean_minimises l m : l <> [] -> (forall xv, In xv l -> 0 < snd xv) ->
+  wss l m == wss l (wsum l / isum l) + isum l * ((m - wsum l / isum l) * (m - wsum l / isum l)) /\
+  wss l (wsum l / isum l) <= wss l m.
+Proof.
+  intros Hne H. pose proof (isum_pos l Hne H) as Hp.
+  assert (E: wss l m == wss l (wsum l / isum l) + isum l * ((m - wsum l / isum l) * (m - wsum l / isum l))).
+  { rewrite (wss_expand l m H), (wss_expand l (wsum l / isum l) H). field. lra. }
+  split; [exact E|]. rewrite E.
+  set (d := m - wsum l / isum l). assert (Hd: 0 <= d * d) by (destruct (Qlt_le_dec d 0); nra).
+  assert (0 <= isum l * (d * d)) by (apply Qmult_le_0_compat; lra). lra.
+Qed.
